@@ -124,7 +124,9 @@ class Wire:
         n = len(data)
         act = self.script[self.pos] if self.pos < len(self.script) else 'all'
         self.pos += 1
-        if isinstance(act, int):
+        if isinstance(act, int) and act == 0 and n >= 1:
+            kind, k = 'part', 0          # nothing accepted, nothing raised (a stalled TLS layer, a full pipe opened O_NONBLOCK by a wrapper)
+        elif isinstance(act, int):
             if n <= 1:
                 kind, k = 'all', n
             else:
@@ -278,7 +280,7 @@ class Obs(BaseComponent):
 
 # --------------------------------------------------------------------------------------------- property
 def _outcomes(big):
-    parts = [1, 1, 2, 3, 7, 63, 100, 4095, 4096] + ([65536, 1000003] if big else [65536])
+    parts = [1, 1, 2, 3, 7, 63, 100, 4095, 4096, 0] + ([65536, 1000003] if big else [65536])
     return st.sampled_from(['all'] * 3 + parts + list(TRANSIENT) * 3 + ['EPIPE', 'ECONNRESET', 'ECONNRESET', 'ENOTCONN', 'ETIMEDOUT'])
 
 
